@@ -24,6 +24,8 @@ pub enum RTamper {
     OffCurve,
     /// one bit of the affine x||y flipped (almost surely off the curve)
     FlipBit(u16),
+    /// another valid point: boundary point #i of G1 (sm9util::g1_edge_points), in affine form
+    EdgePoint(usize),
 }
 
 #[derive(Serialize, Deserialize, Hash, Debug, Clone)]
@@ -51,6 +53,13 @@ fn tamper(honest: &Pt<Fp>, lib_honest: &Point, t: &Option<RTamper>) -> (Option<P
             let q = r9::p1_mul(&(from_be(&expand_bytes(*s, 32)) % (&pr.n - 1u32) + 1u32));
             let alt = &q != honest;
             (Some(q.clone()), lib_g1(&q, &(from_be(&expand_bytes(s ^ 9, 32)) % (pr.p - 1u32) + 1u32)), alt)
+        }
+        Some(RTamper::EdgePoint(i)) => {
+            let eps = g1_edge_points();
+            let (_, x, y) = &eps[*i % eps.len()];
+            let q = Some((r9::fp(x), r9::fp(y)));
+            let alt = &q != honest;
+            (Some(q.clone()), lib_g1(&q, &BigUint::one()), alt)
         }
         Some(RTamper::Negated) => {
             let q = pr.g1.neg(honest);
@@ -161,7 +170,7 @@ fn xc(tampered: bool) -> impl Strategy<Value = Xc> {
 
 pub fn run(ctx: &Ctx) {
     ctx.set_rule(
-        "a case is a history (ke, ID_A, ID_B incl. equal and empty, klen 1..=128, rA, rB injected through the RNG hook, optional alteration of R_A / R_B in transit: another valid point, -R, an off-curve point, a bit flip of x||y, \
+        "a case is a history (ke, ID_A, ID_B incl. equal and empty, klen 1..=128, rA, rB injected through the RNG hook, optional alteration of R_A / R_B in transit: another valid point (random, or a boundary point of G1), -R, an off-curve point, a bit flip of x||y, \
          or the same point in another Jacobian representation, which is not an alteration). Oracle: GM/T 0044.3 on the reference (three pairings per side): R_A, R_B, SK_B and SK_A compared exactly with what each side must derive from what it saw; \
          honest histories: SK_A == SK_B of length klen; an R that is not on the curve must be rejected; an altered valid R must make the keys differ (asserted for klen >= 16 only). Non-trivial: every history (each contains exact comparisons).",
     );
@@ -188,5 +197,16 @@ pub fn run(ctx: &Ctx) {
     ctx.exhaustive("klen_1_128", "every klen 1..=128 on one key pair / identity pair", || {
         (1..=128usize).map(|klen| Xc { ke: gen::hex32(&BigUint::from(0x0bad_c0de_1234_5677u64)), ida_len: 5, idb_len: 3, id_seed: 17, same_id: false, klen, ra: Hex(expand_bytes(klen as u64, 32)), rb: Hex(expand_bytes(klen as u64 ^ 0xbb, 32)), t_ra: None, t_rb: None }).collect()
     }, check);
+    ctx.listed("edge_point_ephemerals", "R_A (resp. R_B) replaced in transit by a boundary point of G1 (x next to 0, N, p, 2^256-p, powers of two, Montgomery limb patterns, y with a leading zero byte): the receiving side must accept it and derive exactly the key GM/T 0044.3 prescribes", || {
+        let mut v = Vec::new();
+        for i in 0..g1_edge_points().len() {
+            for which in 0..2u8 {
+                v.push(Xc { ke: gen::hex32(&BigUint::from(0x0bad_c0de_1234_5677u64)), ida_len: 5, idb_len: 3, id_seed: 17, same_id: false, klen: 16 + i % 17, ra: Hex(expand_bytes(i as u64 ^ 0xe1, 32)), rb: Hex(expand_bytes(i as u64 ^ 0xe2, 32)),
+                    t_ra: if which == 0 { Some(RTamper::EdgePoint(i)) } else { None }, t_rb: if which == 1 { Some(RTamper::EdgePoint(i)) } else { None } });
+            }
+        }
+        v
+    }, check);
+
     ctx.generated("tampered_histories", "proptest exchanges with R_A and/or R_B altered in transit", ctx.tier.pick(250, 3_000), || xc(true), check);
 }
